@@ -73,6 +73,11 @@ def dlist(D):
     return ", ".join(D)
 
 
+def attr_args(P, D):
+    """the macro arguments for the attribute entry (what item_src writes inside #[derive_ex(..)])"""
+    return dlist(list(D) + list(P.get("co", [])))
+
+
 def attrs_src(f, mode, order=None):
     out = []
     for a in (order or ATTRS):
@@ -112,7 +117,8 @@ def level_attrs_src(cfg):
 
 def item_src(P, D, name, mode, entry, for_rustc=False, generics="", extra_attrs=""):
     """Rust source of the item carrying the derive request."""
-    dl = dlist(D)
+    # traits derived next to the comparison traits (the field types implement all of them); listed last
+    dl = dlist(list(D) + list(P.get("co", [])))
     if entry == "attr":
         head = "#[%sderive_ex(%s)]" % ("::derive_ex::" if for_rustc else "", dl)
     else:
@@ -255,6 +261,9 @@ def classes_of(resp, D, entry):
         while n and pos < len(items) and items[pos]["kind"] == "const":   # Eq's hidden assertion item
             pos += 1
         cl[t] = "impl" if n else "missing"
+    # impls of co-derived non-comparison traits (listed last) are not this family's subject
+    while pos < len(items) and items[pos]["kind"] == "impl" and items[pos]["trait"].split("::")[-1] in ("Copy", "Clone", "Debug"):
+        pos += 1
     if pos != len(items):
         info["whole"] = "extra_items"
         info["extra"] = [i["kind"] for i in items[pos:]][:5]
@@ -311,7 +320,10 @@ def random_item(rnd):
         return fs
     if kind == "struct":
         shape = rnd.choice(["named", "tuple"])
-        return mkP("struct", [{"shape": shape, "fields": mkfields(rnd.choice([2, 2, 3]))}])
+        P = mkP("struct", [{"shape": shape, "fields": mkfields(rnd.choice([2, 2, 3]))}])
+        if rnd.random() < 0.3:
+            P["co"] = rnd.choice([["Copy", "Clone"], ["Clone"], ["Debug"]])
+        return P
     vs = []
     nv = rnd.choice([1, 2, 3, 4])
     unit_only = rnd.random() < 0.15
@@ -324,6 +336,8 @@ def random_item(rnd):
         ds = rnd.sample(range(0, 9), nv)        # out of declaration order on purpose
         for v, d in zip(P["variants"], ds):
             v["disc"] = d
+    if rnd.random() < 0.4:
+        P["co"] = rnd.choice([["Copy", "Clone"], ["Clone"], ["Debug"], ["Clone", "Copy", "Debug"]])
     return P
 
 
